@@ -395,7 +395,7 @@ pub fn gen_plan(seed: u64, index: usize) -> Plan {
     net.lat_min_us = *rng.pick(&[200u64, 1_000, 10_000]);
     // QUIC reason phrases may be longer than the 1024 bytes a close capsule can carry
     let rl = *rng.pick(&[0usize, 1, 20, 200, 1024, 1025, 1060]);
-    let code = *rng.pick(&[0u64, 1, 0x100, 0x10c, (1 << 62) - 1, 77]);
+    let code = *rng.pick(&[0u64, 1, 0x100, 0x10c, (1 << 62) - 1, 77, 0x104, 0x170d_7b68, 0x3994_bd84, 0x33]);
     let cause = match index % 7 {
         0 => Cause::PeerClose { code, reason_hex: harness::hex(&rng.bytes(rl)) },
         1 => Cause::LocalClose { code, reason_hex: harness::hex(&rng.bytes(rl)) },
